@@ -654,7 +654,7 @@ func (p *Path) ensureAbs() {
 func (p *Path) refute(extra ...*term.Term) (term.Result, map[string]*big.Int, map[string]bool, bool) {
 	if p.nonlinear && p.SA != nil && !p.X.NoAbstract {
 		p.ensureAbs()
-		ra, _, _ := p.SA.CheckT(p.X.Timeout, true, false, extra...)
+		ra, _, _ := p.SA.CheckT(p.oblTimeout(), true, false, extra...)
 		if p.SA.Dead() {
 			p.SA.Reset()
 			p.absActive = false
@@ -662,7 +662,7 @@ func (p *Path) refute(extra ...*term.Term) (term.Result, map[string]*big.Int, ma
 			return term.Unsat, nil, nil, true
 		}
 	}
-	r, env, benv := p.S.CheckMode(true, true, extra...)
+	r, env, benv := p.S.CheckT(p.oblTimeout(), true, true, extra...)
 	if p.S.Dead() {
 		panic(engineErr{"solver process died (timeout watchdog or crash)"})
 	}
@@ -1019,6 +1019,23 @@ func (x *Exec) runPath(it workItem, sess, sessA *term.Session, res *JobResult, f
 	res.Merged += p.merged
 	res.UnknownFeas += p.unknownFeas
 	res.mu.Unlock()
+}
+
+// oblTimeout is the per-query limit of a proof obligation: the configured limit, shortened when the
+// job's or the check's wall budget is about to end (so that a check on a tree where everything
+// diverges still ends on time; a query cut short this way is "unknown", never "proved").
+func (p *Path) oblTimeout() time.Duration {
+	lim := p.X.Timeout
+	if !p.deadline.IsZero() {
+		rem := time.Until(p.deadline) + 15*time.Second
+		if rem < 10*time.Second {
+			rem = 10 * time.Second
+		}
+		if rem < lim {
+			lim = rem
+		}
+	}
+	return lim
 }
 
 // failNow records a violated obligation using the current path's model.
